@@ -138,7 +138,7 @@ FLAGS = ["C", "CM", "CCM", "CX", "CCX", "I", "CI", "CCI", "M", "X", "CMI", "CXM"
 KINDS = {
     "times": ("times", "status", "maxstep", "hang", "oscillation"),
     "counters": ("counters",),
-    "prefix": ("times", "protocol", "status"),
+    "prefix": ("times", "protocol", "status", "maxstep"),
     "protocol": ("protocol", "status"),
     "budget": ("budget", "status"),
 }
@@ -150,7 +150,7 @@ def hinit_probes(method, backward):
     slowly varying solution: does hinit evaluate the right-hand side beyond xend?"""
     import os
     st, pre = STAGES[method]
-    for pre_val, span, ms in (("1e-4", 1.0, "1e9"), ("0", 1e-9, "none"), ("1e-4", 1e-9, "none"), ("1e-4", 1e-9, "1e9")):
+    for pre_val, span, ms in (("1e-4", 1.0, "1e9"), ("0", 1e-9, "none"), ("1e-4", 1e-9, "none"), ("1e-4", 1e-9, "1e9"), ("1e-4", 1.0, "0.1"), ("1e-6", 100.0, "1.0")):
         x0, xend = (span, 0.0) if backward else (0.0, span)
         os.environ["SCRIPT_PRE"] = pre_val
         try:
@@ -158,6 +158,11 @@ def hinit_probes(method, backward):
         finally:
             os.environ.pop("SCRIPT_PRE", None)
         yield d, (x0, xend, None, None if ms == "none" else float(ms), 100000, "A", "C"), pre_val
+    # a genuinely slow problem (y' = -1e-6 y): hinit wants far more than max_step
+    for span, ms in ((100.0, 1.0), (10.0, 0.5)):
+        x0, xend = (span, 0.0) if backward else (0.0, span)
+        d = replay.probe(["smoothrun", method, repr(x0), repr(xend), "none", repr(ms), "1e-3", "C", "slow"], timeout=20)
+        yield d, (x0, xend, None, ms, 100000, "A", "C"), "slow"
 
 
 def confirm(method, backward, failed, kind):
@@ -171,7 +176,9 @@ def confirm(method, backward, failed, kind):
             for d, cfg, pre_val in hinit_probes(method, backward):
                 for k, desc in judge(method, cfg, d):
                     if k in want:
-                        return True, f"SCRIPT_PRE={pre_val} probe script {method} {cfg[0]} {cfg[1]} none {cfg[3]} 100000 A C  (automatic initial step)", f"native violation [{k}] {desc}"
+                        src = (f"probe smoothrun {method} {cfg[0]} {cfg[1]} none {cfg[3]} 1e-3 C slow  (y' = -1e-6 y, automatic initial step)" if pre_val == "slow"
+                               else f"SCRIPT_PRE={pre_val} probe script {method} {cfg[0]} {cfg[1]} none {cfg[3]} 100000 A C  (automatic initial step)")
+                        return True, src, f"native violation [{k}] {desc}"
         except Exception as e:
             log.append(f"hinit probe failed: {str(e)[:100]}")
     if kind == "counters" and method in ("DOPRI5", "DOP853") and any("evals.ode" in str(f[0]) for f in failed):
@@ -186,7 +193,7 @@ def confirm(method, backward, failed, kind):
     budgets = (100000,) if kind != "budget" else (1, 2, 3)
     for (x0, xend, h0, ms) in battery(method, backward):
         for pat in PATTERNS:
-            for fl in (FLAGS if kind in ("protocol", "prefix", "times") else ["C"]):
+            for fl in (FLAGS if kind in ("protocol", "prefix", "times", "counters") else ["C"]):
                 for mxs in budgets:
                     cfg = (x0, xend, h0, ms, mxs, pat, fl)
                     try:
